@@ -17,6 +17,7 @@ func init() {
 		ID:   "C02",
 		Rule: "one case = one byte string decoded by Packet.Unmarshal and Header.Unmarshal (fresh receivers), or one ordered pair/triple of byte strings decoded into the same receiver; non-trivial = the (last) input is accepted",
 		Assumptions: []string{
+			"element header at the block end: a one-byte / two-byte block of 1-2 words whose last octet(s) announce a value of every length 1..16 / 0..40, followed by 0..41 bytes, in exact-capacity buffers and in windows of a larger array",
 			"fixed-header lies: first byte all 256 values x second byte {00,FF} x every total length 0..(length the first byte claims)+6 x 3 fill patterns",
 			"extension-block lies: CC {0,1,15} x P x profile {BEDE,1000,1001,0000,FFFF} x length field {0,1,2,3,0xFFFF} x every body string up to 4 bytes (quick) / 5 bytes (thorough) over a 13-symbol alphabet of pad/element-header/boundary bytes x 9 tails (RTP padding counts 0,1,2,5,len,255 ...)",
 			"large length fields: X=1 with profile {BEDE,1000,1234}, extension length field {0x3FFF,0x4000,0x4001,0x8000,0xFFFF} words and an input that is 1 byte short of / exactly / 5 or 1300 bytes longer than the claimed block, body of zero bytes, pattern bytes or one maximal element chain, P bit on/off",
@@ -28,6 +29,7 @@ func init() {
 		Scenarios: []mc.Scenario{
 			{Name: "fixed-header-lies", Tiers: "qt", ShardDepth: 2, Run: c02FixedHeader},
 			{Name: "extension-block-lies", Tiers: "qt", ShardDepth: 5, Run: c02ExtBlock},
+			{Name: "element-header-at-the-block-end", Tiers: "qt", ShardDepth: 3, Run: c02HeaderAtEnd},
 			{Name: "large-length-fields", Tiers: "qt", ShardDepth: 3, Run: c02Large},
 			{Name: "mutations-of-valid-images", Tiers: "qt", ShardDepth: 4, Run: c02Mutations},
 			{Name: "reuse-pairs", Tiers: "qt", ShardDepth: 2, Run: c02Pairs},
@@ -257,6 +259,52 @@ func c02ExtBlock(c *mc.Ctx) {
 	buf = append(buf, tail...)
 	if c.Verbose() {
 		c.Notef("cc=%d P=%v profile=%#04x length-field=%d body=%s tail=%s: %s", cc, pbit, profile, lenField, hx(body), hx(tail), hx(buf))
+	}
+	cls, ok := c02Decode(c, buf)
+	if ok {
+		c.NonTrivial()
+	}
+	c.Outcome(cls)
+}
+
+// c02HeaderAtEnd: the last octet(s) of the extension block are an element header that announces
+// a value of every possible length, and 0..40 bytes follow the block: the value lies (partly)
+// outside the block, inside the packet, or outside the input; with exact-capacity buffers and
+// with windows into a larger array.
+func c02HeaderAtEnd(c *mc.Ctx) {
+	twoByte := c.Bool()
+	words := 1 + c.Pick(2) // block length in words
+	maxAnnounced := 16
+	if twoByte {
+		maxAnnounced = 40
+	}
+	announced := c.Pick(maxAnnounced + 1)
+	if !twoByte && announced == 0 {
+		announced = 1
+	}
+	tail := c.Pick(42)
+	spare := c.Bool()
+	buf := []byte{0x90, 0x60, 0, 1, 0, 0, 0, 2, 0, 0, 0, 3, 0xBE, 0xDE, 0, byte(words)}
+	body := make([]byte, 4*words)
+	if twoByte {
+		buf[12], buf[13] = 0x10, 0x00
+		body[len(body)-2], body[len(body)-1] = 7, byte(announced)
+	} else {
+		body[len(body)-1] = 7<<4 | byte(announced-1)
+	}
+	buf = append(buf, body...)
+	for i := 0; i < tail; i++ {
+		buf = append(buf, byte(0xA0+i))
+	}
+	if spare {
+		whole := append(clone(buf), 0xE1, 0xE2, 0xE3, 0xE4, 0xE5, 0xE6, 0xE7, 0xE8, 0xE9, 0xEA, 0xEB, 0xEC, 0xED, 0xEE, 0xEF, 0xF0, 0xF1, 0xF2, 0xF3, 0xF4)
+		buf = whole[:len(buf)]
+	} else {
+		buf = clone(buf)
+		buf = buf[:len(buf):len(buf)]
+	}
+	if c.Verbose() {
+		c.Notef("two-byte form %v, block of %d words ending in the header of an element of %d bytes, %d bytes behind the block, spare capacity %v: %s", twoByte, words, announced, tail, spare, hx(buf))
 	}
 	cls, ok := c02Decode(c, buf)
 	if ok {
